@@ -69,11 +69,17 @@ func Start() *Engine {
 			case w := <-e.addWatcher:
 				logrus.Info("Add watcher")
 				watchers[w.id] = w
-				w.update(ctx, global)
+				if !w.update(ctx, global) {
+					delete(watchers, w.id)
+				}
 			case id := <-e.removeWatcher:
 				logrus.Info("Remove watcher")
-				watchers[id].close()
-				delete(watchers, id)
+				// The watcher may already be gone (it failed, was cancelled before,
+				// or was hung up on); cancelling is idempotent.
+				if w, ok := watchers[id]; ok {
+					delete(watchers, id)
+					w.close()
+				}
 			case req := <-e.updateDB:
 				logrus.Info("Update DB")
 				logrus.Infof("-> %#v", req.expr)
@@ -87,7 +93,9 @@ func Start() *Engine {
 				global = global.With(Root, value)
 				for i, w := range watchers {
 					logrus.Infof("Update watcher %d", i)
-					w.update(ctx, global)
+					if !w.update(ctx, global) {
+						delete(watchers, i)
+					}
 				}
 			case <-e.stop:
 				logrus.Infof("Stop")
@@ -129,7 +137,7 @@ func (e *Engine) Observe(
 	cancel := func() {
 		e.removeWatcher <- id
 	}
-	e.addWatcher <- &watcher{id, cancel, expr, onupdate, onclose}
+	e.addWatcher <- &watcher{id, expr, onupdate, onclose}
 	return cancel
 }
 
@@ -140,29 +148,32 @@ type updateRequest struct {
 
 type watcher struct {
 	id       uint64
-	cancel   func()
 	expr     rel.Expr
 	onupdate func(rel.Value) error
 	onclose  func(error)
 }
 
-func (w *watcher) update(ctx context.Context, global rel.Scope) {
+// update sends the watcher the value of its expression on the given state. It
+// runs on the engine goroutine, so it must never send to the engine's own
+// channels. It reports whether the watcher is still alive; a watcher that
+// failed has been told so (onclose) and must be dropped by the caller.
+func (w *watcher) update(ctx context.Context, global rel.Scope) (alive bool) {
 	defer func() {
 		if err := recover(); err != nil {
+			alive = false
 			w.onclose(errors.WrapPrefix(err, "update panic", 0))
 		}
 	}()
 
 	value, err := w.expr.Eval(ctx, global)
 	if err != nil {
-		w.cancel()
 		w.onclose(err)
-		return
+		return false
 	}
 
-	if err = w.onupdate(value); err != nil {
-		w.cancel()
-	}
+	// An observer whose onupdate fails already knows about the failure; it is
+	// dropped without a further onclose.
+	return w.onupdate(value) == nil
 }
 
 func (w *watcher) close() {
